@@ -13,8 +13,12 @@ os.makedirs(out, exist_ok=True)
 if not os.path.exists(wt):
     subprocess.check_call("git -C /repo worktree add -q %s HEAD" % wt, shell=True)
 earlier = []
-for d in sorted(glob.glob("/verif/seeded/%s*" % pid)):
+seen_names = set()
+for d in sorted(glob.glob("/verif/seeded/%s*" % pid)) + sorted(glob.glob("/tmp/seeds/%s*" % pid)):
     b = os.path.basename(d)
+    if b in seen_names or b == name:
+        continue
+    seen_names.add(b)
     if b[len(pid):] in ("r", "s") or not os.path.exists(d + "/meta.json"):
         continue
     m = json.load(open(d + "/meta.json"))
